@@ -610,6 +610,52 @@ def scenario_unkeyable(run, nseq, length):
                     run.jobs.append((cfg, ops, None))
 
 
+def scenario_probes(run, kinds, modules=('std', 'safe'), backends=('plain', 'dictarch')):
+    """deterministic probes of corners that random walks reach only by luck (each was motivated by a seeded change that a
+    run of random walks missed): what follows a clear(keepstats), the LRU/MRU queue compaction, an unkeyable call
+    right before an overflow, introspection right before an overflow"""
+    NX = 6                      # arguments 1..6 are six distinct keys (stubs.XS); NX+6 is the unkeyable argument
+    for module in modules:
+        for backend in backends:
+            for alg in BOUNDED:
+                for ms in (1, 2, 3):
+                    km = ('str', True, False)
+                    base = py_cfg(module, alg, ms, backend, km, nx=NX)
+                    keys = list(range(1, NX + 1))
+                    if 'clear' in kinds and 2 * ms + 1 <= NX:
+                        for keep in (True, False):
+                            ops = [{'op': 'call', 'a': a} for a in keys[:ms]]
+                            ops += [{'op': 'call', 'a': keys[0]}]
+                            ops += [{'op': 'clear', 'keep': keep}]
+                            ops += [{'op': 'call', 'a': a} for a in keys[ms:2 * ms + 2]]
+                            ops += [{'op': 'info'}]
+                            run.jobs.append((dict(base), ops, None))
+                    if 'compaction' in kinds and alg in ('lru', 'mru'):
+                        for hot in range(ms):
+                            for extra in (-1, 0, 1, 4):
+                                ops = [{'op': 'call', 'a': a} for a in keys[:ms]]
+                                ops += [{'op': 'call', 'a': keys[hot]}] * (10 * ms + extra)
+                                ops += [{'op': 'call', 'a': keys[ms]}, {'op': 'call', 'a': keys[ms + 1]}]
+                                ops += [{'op': 'call', 'a': keys[(hot + 1) % ms]}, {'op': 'call', 'a': keys[ms + 2]}]
+                                run.jobs.append((dict(base), ops, None))
+                    if 'peek' in kinds:
+                        ops = []
+                        for n, a in enumerate(keys[:ms]):
+                            ops += [{'op': 'call', 'a': a}] * (ms - n)         # key n is used ms-n times: the last is least used
+                        ops += [{'op': 'lookup', 'a': keys[ms - 1]}] * 3 + [{'op': 'key', 'a': keys[ms - 1]}]
+                        ops += [{'op': 'call', 'a': keys[ms]}, {'op': 'call', 'a': keys[ms + 1]}, {'op': 'info'}]
+                        run.jobs.append((dict(base), ops, None))
+            if 'unkey' in kinds and module == 'safe':
+                for alg in ALLALG:
+                    for km in (('raw', True, False), ('hash', True, False), ('default',)):
+                        for ms in (1, 2):
+                            cfg = py_cfg('safe', alg, ms, backend, km, unkey='type', nx=NX)
+                            ops = [{'op': 'call', 'a': a} for a in range(1, ms + 1)]
+                            ops += [{'op': 'call', 'a': NX + 6}, {'op': 'call', 'a': ms + 1}, {'op': 'call', 'a': ms + 2},
+                                    {'op': 'call', 'a': 1}, {'op': 'call', 'a': NX + 6}, {'op': 'call', 'a': ms + 3}, {'op': 'info'}]
+                            run.jobs.append((cfg, ops, None))
+
+
 def check_C01(tier):
     run = CacheRun('C01', tier)
     plan_common(run, 'C01', ALLALG, ops=ALL_OPS, args=[1, 2, 3, 4, 5, 6, 8], narchs=(0, 1, 2), purges=(False, True),
@@ -641,6 +687,7 @@ def check_C05(tier):
                 depth_q=6, depth_t=8, sim_num=(12, 80), exh_depth=(4, 5), exh_ops={'call', 'load', 'dump', 'clear'}, exh_args={1, 2, 3, 4})
     t = tier == 'thorough'
     scenario_spellings(run, 30 if t else 20, reps=6 if t else 1)
+    scenario_probes(run, {'clear', 'compaction'})
     scenario_random(run, BOUNDED, ['std', 'safe'], ['plain', 'dictarch', 'file', 'dir', 'sql'], 1500 if t else 250,
                     40 if t else 30, maxsizes=(1, 2, 3, 4), nx=6, profile='setarch')
     return run.finish(assumptions=ASSUME)
@@ -663,6 +710,7 @@ def check_C06(tier):
                 longs.append(base_constants(ALG=alg, MAXSIZE=ms, QMULT=10, ARGS={1, 2, 3, 4}, OPS={'call'}, NARCH=narch))
     with ThreadPoolExecutor(max_workers=common.NCPU) as ex:
         list(ex.map(lambda c: run.generate(c, 400 if t else 60, 45 + 12 * c['MAXSIZE']), longs))
+    scenario_probes(run, {'compaction', 'clear'})
     return run.finish(assumptions=ASSUME + ['entries that entered memory through a bulk load() have no recorded use; '
                                             'the policy clause is not judged while such entries are resident (C05 covers the bound)'])
 
@@ -722,6 +770,7 @@ def check_C16(tier):
                 depth_q=5, depth_t=7, sim_num=(8, 60), exh_depth=(4, 5), exh_args={1, 2, 3, 8}, exh_ops={'call', 'clear'})
     t = tier == 'thorough'
     scenario_unkeyable(run, 4 if t else 1, 25 if t else 18)
+    scenario_probes(run, {'unkey'})
     scenario_random(run, ALLALG, ['std', 'safe'], ['plain', 'dictarch', 'file', 'dir', 'direct-dict'],
                     1000 if t else 150, 40 if t else 25)
     return run.finish(assumptions=ASSUME + ['"unkeyable" arguments: a list for raw / python-hash keymaps, an object whose '
@@ -734,6 +783,7 @@ def check_C18(tier):
                 args=[1, 2, 3, 5, 6, 8], narchs=(0, 1), purges=(False,), safes=(False, True), maxsizes=(1, 2),
                 depth_q=5, depth_t=7, sim_num=(8, 60), exh_depth=(4, 5), exh_ops={'call', 'lookup', 'clear'})
     t = tier == 'thorough'
+    scenario_probes(run, {'peek'})
     rng = run.rng
     n = 2000 if t else 300
     for _ in range(n):
